@@ -85,7 +85,7 @@ class C20(core.Check):
     required_buckets = {b: 3 for b in ['target:vscode', 'target:sublime', 'vocab:macros', 'vocab:no-macros', 'vocab:registers',
                                        'vocab:no-registers', 'vocab:predefined', 'vocab:no-predefined', 'mnemonic:contains-dot',
                                        'mnemonic:prefix-of-another', 'mnemonic:single-letter', 'vocab:underscore-at-edge',
-                                       'description:special-characters']}
+                                       'description:special-characters', 'verbosity:1', 'verbosity:2', 'verbosity:3']}
 
     def __init__(self):
         self.words = 0
@@ -115,10 +115,16 @@ class C20(core.Check):
                 argv = ['generate-extension', tgt, '-c', fn, '-d', 'out']
                 if rng.random() < 0.3:
                     argv += ['-l', 'custom_lang']
+                # the generated files do not depend on how much the tool prints
+                nv = [0, 0, 1, 2, 3, 4][(i + (tgt == 'sublime')) % 6] if i < n_pre else rng.choice([0, 0, 0, 1, 2, 3, 4])
+                vt = set()
+                if nv:
+                    argv += ['-v'] * nv if rng.random() < 0.5 else ['-' + 'v' * nv]
+                    vt = {f'verbosity:{min(nv, 3)}'}
                 yield {'runs': [{'files': {fn: text}, 'dirs': ['out'], 'argv': argv, 'post': 'inspect_extension', 'target': tgt,
                                  'ext_dir': 'out', 'collect_all': False, 'hashseed': str(i % 4), 'probes': []}],
                        'meta': {'mns': mns, 'macros': macros, 'regs': regs, 'pre': pre, 'target': tgt},
-                       'tags': sorted(tags | {'target:' + tgt})}
+                       'tags': sorted(tags | vt | {'target:' + tgt})}
 
     def classify(self, patterns, cls, word):
         """-> span of the match of class rule on the probe line, or None"""
